@@ -19,6 +19,14 @@
 (* shows up as an element event on a dead id, which L1 rejects.            *)
 (* SelfSwapGuard = FALSE gives the header before proposed fix C06-01: TLC  *)
 (* then finds  Construct(k, Small, ..); Swap(k, k)  as a counterexample.   *)
+(*                                                                         *)
+(* Payload types without element events (Untracked) go through the same    *)
+(* steps; the model numbers their objects too but writes no events for     *)
+(* them.  For the types that own a shared_ptr control block (Counted) the  *)
+(* machine keeps the owner count rc[v] per value: +1 for a value / copy    *)
+(* construction, -1 for the destruction of an object that has not been     *)
+(* moved from.  L1 compares it with the number of any objects that contain *)
+(* such an object afterwards.                                              *)
 (***************************************************************************)
 EXTENDS Integers, Sequences, FiniteSets, TLC, Json, AnyLifetime
 
@@ -44,13 +52,17 @@ TT  == NA + 3      \* storage_union tmp_storage inside vtable_stack::swap
 ARG == NA + 4      \* the caller's value / the object returned by a value any_cast
 Loc == 1..(NA + 4)
 
+Untracked == {"Int", "Str", "CStr", "Fn", "Sp", "Ov", "Nest"}     \* as Any!UntrackedTypes
+Counted   == {"Sp", "Nest"}                                      \* as Any!CountedTypes
+NoThrowCp == {"NC"} \cup Untracked                               \* as Any!NothrowCopy
 InPlace(t) == t \in InPlaceTypes
-Capable(t, kind) == kind = "copy" \/ (kind = "move" /\ t \notin NothrowMove)   \* may throw: counts on the fuse
+Capable(t, kind) == (kind = "copy" /\ t \notin NoThrowCp) \/ (kind = "move" /\ t \notin NothrowMove)   \* may throw: counts on the fuse
 
 Start(f) ==
     [vt   |-> [l \in Loc |-> IF l \in Anys THEN vt[l] ELSE "raw"],
      sto  |-> [l \in Loc |-> IF l \in Anys /\ vt[l] \in Types THEN l ELSE 0],
      val  |-> [i \in {k \in Anys : vt[k] \in Types} |-> pv[i]],
+     rc   |-> [v \in Vals |-> Cardinality({k \in Anys : vt[k] \in Counted /\ pv[k] = v})],
      evs  |-> <<>>, nid |-> NA + 1, fuse |-> f, threw |-> FALSE]
 
 ----------------------------------------------------------------------------
@@ -64,12 +76,15 @@ PCtor(M, t, kind, src, v, d) ==
       ELSE LET id == M.nid
                vv == IF kind = "value" THEN v ELSE IF src \in DOMAIN M.val THEN M.val[src] ELSE -9
                w  == IF kind = "move" /\ src \in DOMAIN M.val THEN [M.val EXCEPT ![src] = MOVED] ELSE M.val
-           IN [M EXCEPT !.evs = Append(@, ECtor(id, t, kind, src, vv)),
+           IN [M EXCEPT !.evs = IF t \in Untracked THEN @ ELSE Append(@, ECtor(id, t, kind, src, vv)),
                         !.val = Ext(w, id, vv),
+                        !.rc = IF t \in Counted /\ kind # "move" /\ vv \in DOMAIN @ THEN [@ EXCEPT ![vv] = @ + 1] ELSE @,
                         !.nid = id + 1,
                         !.fuse = IF Capable(t, kind) /\ @ > 1 THEN @ - 1 ELSE @,
                         !.sto[d] = id]
-PDtor(M, id, t) == [M EXCEPT !.evs = Append(@, EDtor(id, t))]
+PDtor(M, id, t) == [M EXCEPT !.evs = IF t \in Untracked THEN @ ELSE Append(@, EDtor(id, t)),
+                             !.rc = IF t \in Counted /\ id \in DOMAIN M.val /\ M.val[id] \in DOMAIN @
+                                      THEN [@ EXCEPT ![M.val[id]] = @ - 1] ELSE @]
 
 ----------------------------------------------------------------------------
 (* vtable_stack<T> / vtable_dynamic<T>  (xany.hpp 232-299) *)
@@ -132,8 +147,9 @@ AnySwap(M, this, rhs) ==                                          \* void swap(a
       ELSE IF M.vt[this] # "null" THEN VtSwap(M, M.vt[this], this, rhs) ELSE M
 
 ----------------------------------------------------------------------------
-(* any_cast (xany.hpp 403-466): is_typed(typeid(T)) then cast<T>() *)
+(* any_cast (xany.hpp): is_typed(typeid(T)) then cast<T>() *)
 CastHit(M, k, g) == g.form \notin {"p_n", "p_nc"} /\ M.vt[k] = g.t
+ValueCastForms == {"v_m", "v_mc", "v_c", "v_cc", "v_r", "v_rc"}
 
 (* one public call, as the driver performs it *)
 FormKind(f) == IF f = "rv" THEN "move" ELSE "copy"     \* T&& binds to the move constructor, T&, const T&, const T&& to the copy constructor
@@ -162,17 +178,21 @@ Run(op, k, g) ==
       [] op = "Destroy" -> AnyDtor(M0, k)
       [] op = "DestroyIf" -> IF M0.vt[k] = "raw" THEN M0 ELSE AnyDtor(M0, k)
       [] op = "Cast" ->
-            IF CastHit(M0, k, g) /\ g.form \in {"v_m", "v_mc", "v_c", "v_cc", "v_r"}
+            IF CastHit(M0, k, g) /\ g.form \in ValueCastForms
               THEN LET M1 == PCtor(M0, g.t, "copy", M0.sto[k], 0, ARG) IN      \* return *p;  (no ANY_IMPL_ANY_CAST_MOVEABLE)
                    IF M1.threw THEN M1 ELSE PDtor(M1, M1.sto[ARG], g.t)
               ELSE M0
       [] op = "SetVia" ->
             IF M0.vt[k] = g.t
-              THEN [M0 EXCEPT !.evs = Append(@, ESet(M0.sto[k], g.t, g.v)), !.val[M0.sto[k]] = g.v]
+              THEN LET old == M0.val[M0.sto[k]] IN
+                   [M0 EXCEPT !.evs = IF g.t \in Untracked THEN @ ELSE Append(@, ESet(M0.sto[k], g.t, g.v)),
+                              !.val[M0.sto[k]] = g.v,
+                              !.rc = IF g.t \in Counted /\ old # g.v                       \* the old owner goes, a new one comes
+                                       THEN [v \in DOMAIN @ |-> IF v = old THEN @[v] - 1 ELSE IF v = g.v THEN @[v] + 1 ELSE @[v]] ELSE @]
               ELSE M0
       [] OTHER -> M0        \* observers
 
-NoRes == [exc |-> "none", null |-> FALSE, id |-> 0, v |-> 0, ty |-> ""]
+NoRes == [exc |-> "none", null |-> FALSE, id |-> 0, v |-> 0, loc |-> 0, ty |-> ""]
 Res(op, k, g, M0, M) ==
     IF M.threw THEN [NoRes EXCEPT !.exc = "fuse"]
     ELSE CASE op = "HasValue" -> [NoRes EXCEPT !.v = IF M0.vt[k] = "null" THEN 0 ELSE 1]       \* !empty()
@@ -180,25 +200,35 @@ Res(op, k, g, M0, M) ==
            [] op = "Type"     -> [NoRes EXCEPT !.ty = IF M0.vt[k] = "null" THEN "void" ELSE M0.vt[k]]
            [] op = "Cast" ->
                 IF CastHit(M0, k, g)
-                  THEN IF g.form \in {"v_m", "v_mc", "v_c", "v_cc", "v_r"}
-                         THEN [NoRes EXCEPT !.id = M.sto[ARG], !.v = M.val[M.sto[ARG]]]
+                  THEN IF g.form \in ValueCastForms
+                         THEN [NoRes EXCEPT !.id = IF g.t \in Untracked THEN 0 ELSE M.sto[ARG], !.v = M.val[M.sto[ARG]]]
+                         ELSE IF g.t \in Untracked THEN [NoRes EXCEPT !.loc = M0.sto[k], !.v = M0.val[M0.sto[k]]]
                          ELSE [NoRes EXCEPT !.id = M0.sto[k], !.v = M0.val[M0.sto[k]]]
                   ELSE IF g.form \in {"p_m", "p_mc", "p_c", "p_cc", "p_n", "p_nc"}
                          THEN [NoRes EXCEPT !.null = TRUE]
                          ELSE [NoRes EXCEPT !.exc = "bad_any_cast"]
-           [] op = "SetVia" -> IF M0.vt[k] = g.t THEN [NoRes EXCEPT !.id = M0.sto[k], !.v = g.v] ELSE [NoRes EXCEPT !.null = TRUE]
+           [] op = "SetVia" -> IF M0.vt[k] # g.t THEN [NoRes EXCEPT !.null = TRUE]
+                               ELSE IF g.t \in Untracked THEN [NoRes EXCEPT !.loc = M0.sto[k], !.v = g.v]
+                               ELSE [NoRes EXCEPT !.id = M0.sto[k], !.v = g.v]
            [] OTHER -> NoRes
 
 ----------------------------------------------------------------------------
 (* abstraction to L1 *)
 RAWc == -2
 EMPTYc == -1
-AbsA == [k \in Anys |-> IF vt[k] = "raw" THEN RAWc ELSE IF vt[k] = "null" THEN EMPTYc ELSE k]
-AbsL == LET hs == {k \in Anys : vt[k] \in Types} IN
+UNTc == 0
+NoUc == [t |-> "", v |-> 0, loc |-> 0]
+AbsA == [k \in Anys |-> IF vt[k] = "raw" THEN RAWc ELSE IF vt[k] = "null" THEN EMPTYc ELSE IF vt[k] \in Untracked THEN UNTc ELSE k]
+AbsU == [k \in Anys |-> IF vt[k] \in Untracked THEN [t |-> vt[k], v |-> pv[k], loc |-> k] ELSE NoUc]
+AbsL == LET hs == {k \in Anys : vt[k] \in Types \ Untracked} IN
         [typ |-> [k \in hs |-> vt[k]], val |-> [k \in hs |-> pv[k]], hi |-> NA]
-PostOf(M) == [k \in Anys |-> IF M.vt[k] = "raw" THEN RAWc ELSE IF M.vt[k] = "null" THEN EMPTYc ELSE M.sto[k]]
+ValAt(M, k) == IF M.sto[k] \in DOMAIN M.val THEN M.val[M.sto[k]] ELSE -9
+PostOf(M) == [k \in Anys |-> IF M.vt[k] = "raw" THEN RAWc ELSE IF M.vt[k] = "null" THEN EMPTYc
+                             ELSE IF M.vt[k] \in Untracked THEN UNTc ELSE M.sto[k]]
+PostU(M)  == [k \in Anys |-> IF M.vt[k] \in Untracked THEN [t |-> M.vt[k], v |-> ValAt(M, k), loc |-> M.sto[k]] ELSE NoUc]
+PostSpc(M) == [v \in {w \in DOMAIN M.rc : M.rc[w] # 0} |-> M.rc[v]]
 
-A == INSTANCE Any WITH a <- AbsA, lt <- AbsL, last <- last, pre <- last
+A == INSTANCE Any WITH a <- AbsA, u <- AbsU, lt <- AbsL, env <- [noexc |-> FALSE], last <- last, pre <- last
 
 Do(op, k, g) ==
     /\ A!Pre(op, k, g)
@@ -207,15 +237,19 @@ Do(op, k, g) ==
        IN /\ vt' = [i \in Anys |-> M.vt[i]]
           /\ pv' = [i \in Anys |-> IF M.vt[i] \in Types /\ M.sto[i] \in DOMAIN M.val THEN M.val[M.sto[i]] ELSE 0]
           /\ last' = [op |-> op, k |-> k, a |-> g, ev |-> M.evs, res |-> Res(op, k, g, M0, M), post |-> PostOf(M),
+                      postu |-> PostU(M), spc |-> PostSpc(M),
                       inp |-> [i \in Anys |-> IF M.vt[i] \in Types /\ InPlace(M.vt[i]) THEN 1 ELSE 0]]
 
 ValueForms == {"lv", "clv", "rv", "crv"}
-CastFormsAll == {"p_m", "p_mc", "p_c", "p_cc", "p_n", "p_nc", "v_m", "v_mc", "v_c", "v_cc", "v_r", "r_m", "r_mc", "r_c", "r_r"}
-CastTargets == Types \cup {"Int"}
+FormsOf(t) == ValueForms \cup (IF t \in {"CStr", "Fn"} THEN {"decay"} ELSE {})
+CastFormsAll == {"p_m", "p_mc", "p_c", "p_cc", "p_n", "p_nc", "v_m", "v_mc", "v_c", "v_cc", "v_r", "v_rc", "r_m", "r_mc", "r_c", "r_r", "lr_r", "x_r", "cx_r"}
+CastTargets == Types \cup {"CharP"}
 
 NDefaultConstruct == \E k \in Anys, f \in Fuses : Do("DefaultConstruct", k, [fuse |-> f])
-NConstruct   == \E k \in Anys, f \in Fuses, t \in Types, v \in Vals, fm \in ValueForms : Do("Construct", k, [t |-> t, v |-> v, form |-> fm, fuse |-> f])
-NAssignValue == \E k \in Anys, f \in Fuses, t \in Types, v \in Vals, fm \in ValueForms : Do("AssignValue", k, [t |-> t, v |-> v, form |-> fm, fuse |-> f])
+NConstruct   == \E k \in Anys, f \in Fuses, t \in Types, v \in Vals, fm \in ValueForms \cup {"decay"} :
+                    fm \in FormsOf(t) /\ Do("Construct", k, [t |-> t, v |-> v, form |-> fm, fuse |-> f])
+NAssignValue == \E k \in Anys, f \in Fuses, t \in Types, v \in Vals, fm \in ValueForms \cup {"decay"} :
+                    fm \in FormsOf(t) /\ Do("AssignValue", k, [t |-> t, v |-> v, form |-> fm, fuse |-> f])
 NCopyConstruct == \E k \in Anys, f \in Fuses, j \in Anys : Do("CopyConstruct", k, [j |-> j, fuse |-> f])
 NMoveConstruct == \E k \in Anys, f \in Fuses, j \in Anys : Do("MoveConstruct", k, [j |-> j, fuse |-> f])
 NCopyAssign  == \E k \in Anys, f \in Fuses, j \in Anys : Do("CopyAssign", k, [j |-> j, fuse |-> f])
@@ -239,6 +273,7 @@ Init ==
     /\ vt = [k \in Anys |-> "raw"]
     /\ pv = [k \in Anys |-> 0]
     /\ last = [op |-> "Init", k |-> 0, a |-> [fuse |-> 0], ev |-> <<>>, res |-> NoRes, post |-> [k \in Anys |-> RAWc],
+               postu |-> [k \in Anys |-> NoUc], spc |-> [v \in {} |-> 0],
                inp |-> [k \in Anys |-> 0]]
 
 Spec == Init /\ [][Next]_ivars
@@ -255,8 +290,9 @@ RepInv == \A k \in Anys :
 (* every L2 call is an L1 call with the same arguments, element events, result and contents,
    and the next L2 state is the (canonically renamed) L1 state after it *)
 StepRefines ==
-    /\ A!CallOK(last'.op, last'.k, last'.a, last'.ev, last'.res, last'.post)
+    /\ A!CallOK(last'.op, last'.k, last'.a, last'.ev, last'.res, last'.post, last'.postu, last'.spc)
     /\ AbsA' = A!CanonA(last'.post)
+    /\ AbsU' = A!CanonU(last'.post, last'.postu)
     /\ AbsL' = A!CanonL(last'.post, Fold(AbsL, last'.ev, 1).L)
 Refines == [][StepRefines]_ivars
 
